@@ -27,7 +27,7 @@ CHECKS['C20'] = dict(
 CHECKS['C13'] = dict(
     category='other',
     text='Bounded symbolic execution (CrossHair/z3) of the real AdbMessage/RawAdbMessage/AdbTransportAdapter: wire layout and read-back for every command, all 32-bit arguments and payloads up to the bound; '
-         'rejection decided as an iff over ARBITRARY six header words and an arbitrary payload (delivered exactly when command known, length and byte-sum agree); short/empty headers; payload written after an expired timeout.',
+         'one message object rewritten after its fields were reassigned; rejection decided as an iff over ARBITRARY six header words and an arbitrary payload (delivered exactly when command known, length and byte-sum agree); short/empty headers; payload written after an expired timeout.',
     note='Trusted: CrossHair+z3; SymStruct stand-in for struct (validated against struct each run); EqDict look-up stub; scripted transport. Outside: payloads longer than the bound; writer/reader interleavings unless the E3 condition is listed in evidence.',
     technique='symbolic execution (CrossHair/z3) of real framing code over symbolic header words and payload',
     design='3/C13')
@@ -35,7 +35,7 @@ CHECKS['C16'] = dict(
     category='other',
     text='Bounded symbolic execution (CrossHair/z3) of the real FastbootProtocol/FastbootCommands against a scripted bootloader whose packets are fully symbolic strings (<=6 chars, <=3 packets): '
          'the outcome, returned payload and forwarded INFO/OKAY/FAIL texts equal a specification automaton; every command is one "command[:arg]" packet; download announces the size, sends image bytes only after DATA with exactly that size, '
-         'in order, in chunks <= the configured size, with cumulative progress that survives raising callbacks, for image sizes around multiples of the chunk size.',
+         'in order, in chunks <= the configured size, with cumulative progress that survives raising callbacks, for image sizes around multiples of the chunk size; flash_from_file as a two-command sequence (flash:<partition> exactly once and only after the download\'s OKAY, texts and payloads of both commands in device order).',
     note='Trusted: CrossHair+z3, the specification automaton in props/C16.py, FakeUsb. Commands/args and image sizes are enumerated (formatting with %08x realises symbolic ints); DATA packets carry well-formed hex size fields; error message texts with symbolic device text are not checked (concrete texts are).',
     technique='symbolic execution (CrossHair/z3) vs specification automaton over symbolic device responses',
     design='3/C16')
@@ -51,14 +51,14 @@ CHECKS['C17'] = dict(
     category='fault_enumeration',
     text='Bounded symbolic execution (CrossHair/z3) of the real OutputToFile/OutputToJSON/Atomic/atomic_write over an in-memory file-system model: fault kind and index (serializer after k chunks, k-th write, close/flush) '
          'and the crash point (FS operation after which nothing reaches the disk) are symbolic; after every run the destination is absent (only if it was), the old complete record, or the complete new serialization; '
-         'fault-free runs publish exactly the serialization under the formatted name.',
-    note='Trusted: CrossHair+z3 and the MemFS model (buffered writes, atomic rename on one file system, non-atomic copyfile). Outside: real kernel/power-loss ordering, staging dir on another file system.',
+         'fault-free runs publish exactly the serialization under the formatted name; a two-run history (first run killed at a symbolic FS operation, second run fault-free on the disk the first left) publishes exactly the second record.',
+    note='Trusted: CrossHair+z3 and the MemFS model (buffered writes, atomic rename on one file system, non-atomic copyfile, os.open/fdopen flags with in-place overwrite); use of an unmodelled FS primitive is reported INCONCLUSIVE, not as a violation. Outside: real kernel/power-loss ordering, staging dir on another file system.',
     technique='symbolic execution (CrossHair/z3) over symbolic fault/crash indices on a file-system model',
     design='3/C17')
 CHECKS['C06'] = dict(
     category='other',
     text='Bounded symbolic execution (CrossHair/z3) of the real measurement stack (Collection, Measurement, MeasuredValue, DimensionedMeasuredValue, PhaseState.from_descriptor/_finalize_measurements/_measurements_pass/_marginal, real in_range/equals/pivot validators) '
-         'over symbolic assignment histories: recorded value = transform(last), outcome UNSET/PASS/FAIL and marginal recomputed from scratch, per-coordinate overrides in first-assignment order, rejected assignments change nothing, raising validators, conditional validators, no PARTIALLY_SET after phase end.',
+         'over symbolic assignment histories: recorded value = transform(last), outcome UNSET/PASS/FAIL and marginal recomputed from scratch, per-coordinate overrides in first-assignment order, rejected assignments change nothing, raising validators, conditional validators, no PARTIALLY_SET after phase end whether the body returned, returned STOP, raised or timed out (a terminal result is never overwritten).',
     note='Trusted: CrossHair+z3, the from-scratch oracle in props/C06.py, a fake TestState/diagnoses store. Histories <=2 scalar (3 thorough) / <=2 dimensioned (3 thorough) assignments; int/None values; limits symbolic.',
     technique='symbolic execution (CrossHair/z3) of assignment histories vs from-scratch oracle',
     design='3/C06')
@@ -102,8 +102,8 @@ CHECKS['C08'] = dict(
     design='3/C08')
 CHECKS['C09'] = dict(
     category='other',
-    text='Bounded symbolic execution (CrossHair/z3) of the real Test.execute contract: for programs of family T with a symbolic deviating phase, symbolic subsets of raising callbacks, four test_start variants, repeated execution and an overlapping execute() issued from inside a phase body or an output callback: every callback called exactly once in order with the identical, final record (outcome/end time/phase records complete, dut_id, metadata, no running phase), return value iff PASS, executor/SIGINT registration/record handler gone afterwards, overlap refused with InvalidTestStateError.',
-    note='Trusted: CrossHair+z3, synchronous thread stubs (executor body runs when execute() waits), FakeClock. Single OS thread: the overlapping call is re-entrant. KeyboardInterrupt path not covered.',
+    text='Bounded symbolic execution (CrossHair/z3) of the real Test.execute contract: for programs of family T with a symbolic deviating phase, symbolic subsets of raising callbacks, four test_start variants, repeated execution and an overlapping execute() issued from inside a phase body or an output callback: every callback called exactly once in order with the identical, final record (outcome/end time/phase records complete, dut_id, metadata, no running phase), return value iff PASS, executor/SIGINT registration/record handler gone afterwards, overlap refused with InvalidTestStateError; SIGINT (real Test.handle_sig_int) while execute() waits, before the executor started or just after it finished: final record once to every callback, clean-up, KeyboardInterrupt re-raised.',
+    note='Trusted: CrossHair+z3, synchronous thread stubs (executor body runs when execute() waits), FakeClock. Single OS thread: the overlapping call is re-entrant. SIGINT moments inside the run are C04\'s.',
     technique='symbolic execution (CrossHair/z3) of Test.execute with a finality/exactly-once monitor',
     design='3/C09')
 CHECKS['C10'] = dict(
@@ -135,9 +135,9 @@ CHECKS['C12'] = dict(
 CHECKS['C04'] = dict(
     category='model_checking', engine='seqz',
     text='Bounded model checking of the real abort path: TestExecutor._execute_abortable_sequence/_execute_node/abort/..., PhaseExecutor.execute_phase/_execute_phase_once/abort/reset_stop and PhaseExecutorThread are sequentialised from the live source; '
-         'test programs (a single phase, setup/main/teardown groups, a group nested in a teardown, and in the thorough tier a repeating phase) run as coroutines on cooperative primitives while one or two abort() calls arrive at symbolic steps under a symbolic preemption; after every schedule: the outcome is ABORTED iff an abort arrived before the end, '
+         'test programs (a single phase, setup/main/teardown groups, a group nested in a teardown, and in the thorough tier a repeating phase) run as coroutines on cooperative primitives while one or two abort() calls arrive at symbolic steps under a symbolic preemption; after every schedule: the outcome is ABORTED whenever the abort was registered before the plug teardown of the finalization returned (the plug teardown is a preemption point), '
          'no main-phase body starts after abort() returned, teardown of every entered group runs exactly once, a second abort skips at most the current teardown phase, and the executor always terminates.',
-    note='Trusted: CrossHair+z3, vlib/seqz transformer and primitives, phase bodies as scripted coroutines with virtual durations. One class of schedule violates the statement on the pinned tree and is listed as known finding D13 (abort lost between the executor check and the phase start). Outside: >2 aborts, plugs tearDown under abort, real signal delivery. Schedule variables are pinned by bisection and the pinned schedule runs natively on the sequentialised code (the solver partitions and exhausts the schedule domain; it does not reason symbolically about the code inside a path). Counterexamples replay in the sequentialised model, not on real threads; the genuine findings were additionally reproduced on real threads by scripts under findings/.',
+    note='Trusted: CrossHair+z3, vlib/seqz transformer and primitives, phase bodies as scripted coroutines with virtual durations. One class of schedule violates the statement on the pinned tree and is listed as known finding D13 (abort lost between the executor check and the phase start). Outside: >2 aborts, schedules inside tear_down_plugs beyond one preemption point, real signal delivery. Schedule variables are pinned by bisection and the pinned schedule runs natively on the sequentialised code (the solver partitions and exhausts the schedule domain; it does not reason symbolically about the code inside a path). Counterexamples replay in the sequentialised model, not on real threads; the genuine findings were additionally reproduced on real threads by scripts under findings/.',
     technique='sequentialisation of the real executor abort path + symbolic schedule (CrossHair/z3)',
     design='8/C04')
 CHECKS['C14'] = dict(
